@@ -317,3 +317,25 @@ def full(e, val, depth=4):
     for _ in range(depth):
         t = Sub().visit(t)
     return ast.unparse(t)
+
+
+def return_rows_deep(stmts, al=None, _pre=()):
+    """[(facts, return node)] for every `return` reachable in the block, loops included: the facts of a return inside a loop body
+    are those on the way to the loop plus those inside the body (loops nested in loops likewise)."""
+    out = []
+    for p in enum_paths(stmts):
+        if not feasible(p):
+            continue
+        for i, e in enumerate(p.events):
+            if e[0] == "loop" and isinstance(e[1], (ast.For, ast.While)):
+                out += return_rows_deep(e[1].body, al, tuple(_pre) + tuple(facts(p, i, al)))
+        if p.end == "return":
+            out.append((list(_pre) + facts(p, None, al), p.end_node))
+    # one entry per return node and fact set
+    seen, uniq = set(), []
+    for fs, n in out:
+        k = (id(n), repr(fs))
+        if k not in seen:
+            seen.add(k)
+            uniq.append((fs, n))
+    return uniq
